@@ -1950,7 +1950,7 @@ func (u *Unit) runInlineDefers(st *State, fr *inlineFrame) {
 		if fl, isLit := call.Fun.(*ast.FuncLit); isLit {
 			if u.inlinableDeferLit(call, fl) {
 				saved := u.inlineStack
-				u.inlineStack = u.inlineStack[:len(u.inlineStack)-1]
+				u.inlineStack = append([]*inlineFrame(nil), u.inlineStack[:len(u.inlineStack)-1]...) // copy: the callee pushes frames
 				u.execLitInline(st, call, fl)
 				u.inlineStack = saved
 				continue
@@ -1961,7 +1961,7 @@ func (u *Unit) runInlineDefers(st *State, fr *inlineFrame) {
 		}
 		// the frame must not be active while its own defers run
 		saved := u.inlineStack
-		u.inlineStack = u.inlineStack[:len(u.inlineStack)-1]
+		u.inlineStack = append([]*inlineFrame(nil), u.inlineStack[:len(u.inlineStack)-1]...) // copy: the callee may push frames
 		u.eval(st, call)
 		u.inlineStack = saved
 	}
@@ -1980,6 +1980,9 @@ func (u *Unit) inlineReturn(st *State, s *ast.ReturnStmt) {
 				}
 			}
 		} else {
+			if len(s.Results) != len(fr.results) {
+				u.giveUp(s.Pos(), "return with %d values inside a literal frame with %d results (frame mismatch; %d frames, loops %d)", len(s.Results), len(fr.results), len(u.inlineStack), len(u.loopStack))
+			}
 			var vals []Term
 			for i, r := range s.Results {
 				vals = append(vals, u.evalAs(st, r, fr.results[i].Type()))
